@@ -1,7 +1,7 @@
 //! Building FSTs through every public front end; cache statistics via hook H2.
 use crate::gen::Kv;
 use fst::raw::{self, Builder, Fst, Output};
-use fst::{Map, MapBuilder, Set, SetBuilder, Streamer};
+use fst::{IntoStreamer, Map, MapBuilder, Set, SetBuilder, Streamer};
 
 pub const GEOMS: [(usize, usize); 6] = [(10_000, 2), (0, 0), (1, 1), (1, 3), (7, 2), (64, 2)];
 
@@ -247,6 +247,121 @@ pub fn build(front: Front, kv: &Kv) -> Result<Vec<u8>, String> {
             Ok(s.into_fst().into_inner())
         }
     }
+}
+
+/// HISTORY for the thread that is about to run judged operations: none of the properties allows an operation to depend on what the
+/// thread (or process) did before, so the monitors interleave their judged work with unrelated library use whose traces a
+/// stateful implementation (thread-locals, statics, pools, caches keyed by address) would carry over: builders abandoned after a
+/// rejected or failed call, builders that migrate between threads, bounded streams over long keys read to their end or dropped
+/// half-way, set operations abandoned after their first key, repeated verify() calls, lookups on short-lived FSTs at recycled
+/// addresses. Nothing here is judged (panics are swallowed); the judged operations that follow are.
+pub fn history_noise(n: usize) {
+    let _ = std::panic::catch_unwind(std::panic::AssertUnwindSafe(|| {
+        let long = |i: usize| format!("/home/noise/documents/2024/{:04}/entry-{}", i * 7 % 50, "x".repeat(i % 23)).into_bytes();
+        // abandoned builders: after accepted keys, after a rejected key, after a failed sink
+        {
+            let mut b = Builder::memory();
+            let _ = b.insert("nx", 1 + n as u64);
+            let _ = b.insert("nxa", 2);
+            let _ = b.insert("na", 3); // rejected
+            if n % 2 == 0 {
+                let _ = b.insert("nxa", 1); // rejected duplicate with a smaller value
+            }
+        }
+        {
+            let mut b = SetBuilder::memory();
+            let _ = b.insert("");
+            let _ = b.insert(long(n));
+        }
+        {
+            let sink = crate::sinks::Sink::new(crate::sinks::Policy::Capacity { total: 17 + n % 9, chunk: 3, fault: crate::sinks::Fault::Zero });
+            if let Ok(mut b) = MapBuilder::new(sink) {
+                let _ = b.insert("a", 1);
+                let _ = b.insert("ab", 2);
+                let _ = b.insert("b", 3);
+            }
+        }
+        // a builder that migrates between threads (both directions)
+        if n % 5 == 0 {
+            let mut b = Builder::memory();
+            let _ = b.insert("ka", 1);
+            let _ = b.insert("kb", 2);
+            let _ = std::thread::spawn(move || {
+                let _ = b.insert("kc", 3);
+                let _ = b.into_inner();
+            })
+            .join();
+            if let Ok(mut b2) = std::thread::spawn(|| {
+                let mut b = Builder::memory();
+                let _ = b.insert("xa", 10);
+                let _ = b.insert("xb", 20);
+                b
+            })
+            .join()
+            {
+                let _ = b2.insert("xc", 30);
+                let _ = b2.into_inner();
+            }
+        }
+        // a small FST with long keys, living at a heap address that will be recycled
+        let mut keys: Vec<Vec<u8>> = (0..40).map(|i| long(i + n)).collect();
+        keys.push(b"banana".to_vec());
+        keys.sort();
+        keys.dedup();
+        let mut b = Builder::memory();
+        for (i, k) in keys.iter().enumerate() {
+            let _ = b.insert(k, (i as u64) * 3);
+        }
+        let bytes = b.into_inner().unwrap_or_default();
+        if let Ok(f) = Fst::new(&bytes[..]) {
+            let _ = f.verify();
+            let _ = f.verify();
+            let mid = &keys[keys.len() / 2];
+            // bounded streams read to the end (the upper bound cuts them off) and streams dropped half-way
+            let mut s = f.range().le(mid).into_stream();
+            while let Some(_) = s.next() {}
+            drop(s);
+            let mut s = f.range().ge(&keys[3]).lt(mid).into_stream();
+            while let Some(_) = s.next() {}
+            drop(s);
+            let mut s = f.range().gt(mid).into_stream();
+            let _ = s.next();
+            let _ = s.next();
+            drop(s);
+            let mut s = f.search(fst::automaton::Subsequence::new("noise")).le(mid).into_stream();
+            while let Some(_) = s.next() {}
+            drop(s);
+            // set operations over many streams, abandoned after the first key
+            let mut ob = fst::raw::OpBuilder::new();
+            for _ in 0..7 {
+                ob.push(&f);
+            }
+            let mut u = ob.union();
+            let _ = u.next();
+            drop(u);
+            let mut ob = fst::raw::OpBuilder::new();
+            for _ in 0..5 {
+                ob.push(f.range().ge(&keys[1]));
+            }
+            let mut x = ob.intersection();
+            let _ = x.next();
+            drop(x);
+            let _ = f.get(mid);
+            let _ = f.contains_key(b"banana");
+            let mut buf = vec![b'#'; 300];
+            let _ = f.get_key_into(9, &mut buf);
+        }
+        // the same bytes again at (possibly) the same address under another version label
+        let mut again = bytes.clone();
+        if again.len() > 40 {
+            again[0] = 2;
+            again.truncate(again.len() - 4);
+            if let Ok(f) = Fst::new(&again[..]) {
+                let _ = f.get(&keys[0]);
+                let _ = f.verify();
+            }
+        }
+    }));
 }
 
 /// record the structural classes of a decoded artifact (decoder-derived coverage)
